@@ -270,7 +270,7 @@ Section C10Side.
   Proof. exact (side_save_lossless D P empty rd wr wside g sh). Qed.
 End C10Side.
 
-(** [side_ok] is necessary (the defects repaired by fixes b7b21cf and 1c0c7ad): a writer that fabricates ids for a file
+(** [side_ok] is necessary (the defects repaired by fixes b7b21cf and 81886b6): a writer that fabricates ids for a file
     with an empty FACEIDS lump, or pads a short one with zeros, changes the lump that has no view although every graph
     condition holds; the writer that stores the ids as read (and nothing when there are none) does not. *)
 Theorem c10_store_outside_view_fabricated_refuted :
@@ -359,7 +359,7 @@ Theorem c10_hidden_mutation_hypotheses_satisfiable :
          (run_m (list nat) (list nat) nil (mx_rd false) g_mut std_shape mx_mdeps mx_mut false (0 :: 1 :: nil) mx_file))) 0 = 5 :: nil.
 Proof. exact mut_example_lossless. Qed.
 
-(** [early = false] is necessary (the defect repaired by fix 61823d3): the reader of view 0 raises on this file AFTER
+(** [early = false] is necessary (the defect repaired by fix 477021c): the reader of view 0 raises on this file AFTER
     it changed the entities; the look fails, nothing is cached for view 0, its writer never runs, and save writes the
     entity lump without the key ([7] instead of [9; 7]).  With [early = false] the same history is lossless. *)
 Theorem c10_hidden_mutation_before_raise_refuted :
